@@ -14,7 +14,8 @@ Inductive case :=
 | CMaybe (r d : option res)                    (* Resources.maybe_with_defaults(r, d) *)
 | CDict (r : res)                              (* r.dict(), Resources.from_dict(r.dict()), == r *)
 | CFromDict (d : udict)                        (* Resources.from_dict(d) *)
-| CSlurm (r : res).                            (* r.to_slurm_options() *)
+| CSlurm (r : res)                             (* r.to_slurm_options() *)
+| CMaybeMax (e : explicit) (ch : list (option res)).  (* _maybe_max_resources(e, [f with f.resources = ch_i]) *)
 
 (* ---------- observation format (shared by model and statement; [size] is the respective size function) ---------- *)
 Definition sx_oz (o : option Z) : sx := match o with Some z => SI z | None => SNone end.
@@ -50,6 +51,11 @@ Definition mk_opt (a : option res) : result (option res) :=
 
 Definition sx_which (w : whichobj) : sx :=
   SS (match w with WNone => s "none" | WFirst => s "first" | WSecond => s "second" | WNew => s "new" end).
+
+Definition mk_explicit (e : explicit) : result explicit :=
+  match e with ERes a => do r <- mk a; Ok (ERes r) | _ => Ok e end.
+Definition sx_mm_which (w : mm_which) : sx :=
+  SS (match w with MNone => s "none" | MExplicit => s "explicit" | MChild => s "child" | MNew => s "new" end).
 
 Definition run (c : case) : sx :=
   match c with
@@ -93,6 +99,14 @@ Definition run (c : case) : sx :=
       match mk a with
       | Err e => bad_case e
       | Ok r => SL [SS (to_slurm_options r); sx_res r]
+      end
+  | CMaybeMax e ch =>
+      match mk_explicit e, mapM mk_opt ch with
+      | Ok e', Ok ch' =>
+          let '(x, ch'', w) := maybe_max_resources e' ch' in
+          SL [sx_opt (sx_of_result sx_res_sz) x; SL (map (sx_opt sx_res) ch''); sx_mm_which w]
+      | Err er, _ => bad_case er
+      | _, Err er => bad_case er
       end
   end.
 
@@ -256,6 +270,23 @@ Definition spec_ok (c : case) (o : sx) : bool :=
            | SL [SS out; after] =>
                sx_eqb after (sp_enc r)
                && forallb (fun w => mem_str w (split_char " "%char out)) (quantity_words r)
+           | _ => false
+           end
+  | CMaybeMax e ch =>
+      (* without an explicit argument the result is at least as large as every child that has resources *)
+      if negb (forallb operand_ok_opt ch && match e with ERes r => operand_ok r | _ => true end) then true
+      else match o with
+           | SL [x; SL after; _] =>
+               list_eqb sx_eqb after (map (sx_opt sp_enc) ch)
+               && match e with
+                  | ENone =>
+                      match somes ch with
+                      | [] => is_none_sx x
+                      | cs => ok_with x (fun q => forallb (dominates_b q) cs)
+                      end
+                  | ERes r => ok_with x (fun q => same_quantities_b q r)
+                  | EDict _ => true
+                  end
            | _ => false
            end
   end.
